@@ -1013,9 +1013,23 @@ class Host(utils.EventEmitter):
             logger.exception('!!! error parsing packet from bytes')
             return
 
-        if self.ready or (
-            isinstance(hci_packet, hci.HCI_Command_Complete_Event)
-            and hci_packet.command_opcode == hci.HCI_RESET_COMMAND
+        if (
+            self.ready
+            or (
+                isinstance(hci_packet, hci.HCI_Command_Complete_Event)
+                and hci_packet.command_opcode == hci.HCI_RESET_COMMAND
+            )
+            or (
+                # The response to the command that is outstanding is never stale:
+                # its sender is waiting for it (reset() may have been called by
+                # another task in the meantime)
+                isinstance(
+                    hci_packet,
+                    (hci.HCI_Command_Complete_Event, hci.HCI_Command_Status_Event),
+                )
+                and self.pending_command is not None
+                and hci_packet.command_opcode == self.pending_command.op_code
+            )
         ):
             self.on_hci_packet(hci_packet)
         else:
